@@ -24,4 +24,13 @@ def r_zero_columns(c):
         o2 = A(t64(Jz)).numpy()
         if not close(o2[:J.shape[1]], o1, 1e-6) or np.any(o2[J.shape[1]:] != 0):
             bad.append(f"{extra} zero columns appended: {o2[:J.shape[1]].tolist()} vs {o1.tolist()}")
+    # zero columns INSERTED IN FRONT (the informative columns come last), also beyond 2**16 columns where block-wise code paths start
+    for extra in (3, 70000, 140001):
+        Jz = np.concatenate([np.zeros((m, extra)), J], axis=1)
+        torch.manual_seed(0)
+        o1 = A(t64(J)).numpy()
+        torch.manual_seed(0)
+        o2 = A(t64(Jz)).numpy()
+        if not close(o2[extra:], o1, 1e-6) or np.any(o2[:extra] != 0):
+            bad.append(f"{extra} zero columns inserted in front: {o2[extra:].tolist()} vs {o1.tolist()}")
     return dict(reproduced=bool(bad), why=bad[:2])
